@@ -8,6 +8,7 @@ inconclusive, never as a pass).
 
 # loop bounds that are the same everywhere
 COMMON_RULES = [
+    (r"^memcpy\.|^memmove\.", 10000),  # byte-loop memcpy (models/cprover/mem.c), only present where it is linked
     (r"memcmp", 70),            # Vec<u8>/[u8] equality up to 64 bytes (+1), signature compare
     (r"4Node3new", 34),         # Node::new blank scan over 32 hash bytes
     (r"4util6hash32", 34),
@@ -208,6 +209,7 @@ C02 = dict(
         "c02_open_valid_then_stale": _OP("valid entry followed by a stale one: only the valid one is replayed"),
     },
 )
+C02["mir"] = True
 PROPS["C02"] = C02
 
 # --------------------------------------------------------------------------------------------- C07
@@ -258,6 +260,7 @@ C12 = dict(
         "c12_crash_after_truncate": _OP("all three operations applied: read-only core, no entries", tier="thorough"),
     },
 )
+C12["mir"] = True
 PROPS["C12"] = C12
 
 # --------------------------------------------------------------------------------------------- C09
@@ -350,21 +353,51 @@ C04 = dict(
 PROPS["C04"] = C04
 
 # --------------------------------------------------------------------------------------------- C10
+_ST_RULES = [(r"flush_infos|read_infos_to_vec|4iter", 8), (r"drop_glue", 6)]
 C10 = dict(
     title="A storage error surfaces as an error and is recoverable by reopening",
-    variant="model",
+    variant="st",
     patterns=["c10_"],
-    functions=["hypercore::storage::Storage::{flush_infos,read_infos_to_vec,get_random_access}", "map_random_access_err"],
-    oracle="journal of issued operations of a hand-written RandomAccess backend whose k-th operation fails",
-    outside=["the public calls in core.rs (`?` on every storage call before the in-memory commit) and the state after reopening: the async Hypercore API does not fit in CBMC here; recovery after a fault reduces to crash recovery (C02) only because a failed batch stops issuing operations, which is what is decided here",
-             "backends whose futures yield (the harness backend returns ready futures)"],
+    groups=[dict(variant="st", patterns=["c10_"])],
+    functions=["hypercore::storage::Storage::{flush_info,flush_infos,read_info,read_infos_to_vec,get_random_access} (the real src/storage/mod.rs after the mechanical de-async rewrite)", "hypercore::storage::map_random_access_err"],
+    oracle="journal of a recording RandomAccess backend (sync trait model) whose k-th operation fails; expected (store, kind, offset, length) per instruction",
+    outside=["the public calls in core.rs and the state after reopening (see DESIGN.md: the whole Hypercore API does not fit in CBMC)",
+             "backends whose futures yield (the model trait is synchronous = always-ready futures); Storage::{open,new_memory,new_disk} (cut from the overlay: they only build backends)",
+             "batches longer than 4 operations"],
     harnesses={
-        "c10_flush_infos_fault": H("quick", "flush_infos(write, delete, truncate) with the k-th operation failing: Err iff k<3, nothing issued after the failure", "k in 0..=3", "batch of 3", timeout=900, unwind=2, rules=[(r"flush_infos|read_infos_to_vec|4iter", 6)]),
-        "c10_read_infos_fault": H("quick", "read_infos_to_vec(2 reads) with the k-th operation failing: Err iff k<2, nothing issued after", "k in 0..=2", "batch of 2", timeout=900, unwind=2, rules=[(r"flush_infos|read_infos_to_vec|4iter", 6)]),
+        "c10_flush_infos_fault": H("quick", "flush_infos(write, delete, truncate, write across 3 stores): Err iff an operation failed, nothing issued after the failure, every issued operation is the one the StoreInfo asked for",
+                                   "fail position 0..=4 (4 = none), I/O or out-of-bounds error kind, all five offsets/lengths full u64", "batch of 4", timeout=900, unwind=4, rules=_ST_RULES),
+        "c10_flush_info_single": H("quick", "flush_info(single write) and the empty batch", "fail or not, error kind, offset full u64", "one operation", timeout=900, unwind=4, rules=_ST_RULES),
+        "c10_read_infos_fault": H("quick", "read_infos_to_vec(content with length, size, whole-file content = len+read): Err iff an operation failed, nothing issued after, results carry store/index/length",
+                                  "fail position 0..=4, file length < 2^40, both indices", "3 instructions / 4 backend operations", timeout=900, unwind=4, rules=_ST_RULES),
+        "c10_read_out_of_bounds": H("quick", "an out-of-bounds read is a miss iff allow_miss, an error otherwise", "allow_miss, index full u64", "one instruction", timeout=900, unwind=4, rules=_ST_RULES),
     },
 )
-# not registered: both harnesses exhaust 9 GB (drop glue of io::Error / dyn Future fan-out); C10 stays not_applicable
-# PROPS["C10"] = C10
+C10["mir"] = True
+C10["functions"].append("MIR of hypercore::core::{new,append,append_batch,get,clear,create_proof,verify_and_apply_proof,missing_nodes,missing_nodes_from_merkle_tree_index,make_read_only,byte_range,create_valueless_proof,verify_proof,flush_bitfield_and_tree_and_oplog} (error surfacing on every path)")
+PROPS["C10"] = C10
+
+# --------------------------------------------------------------------------------------------- C13
+C13 = dict(
+    title="Replication events announce exactly the state changes that happened",
+    variant="st",
+    patterns=["c13_"],
+    groups=[dict(variant="st", patterns=["c13_"])],
+    mir=True,
+    functions=["MIR of hypercore::core::{append_batch,verify_and_apply_proof,get,clear,make_read_only,flush_bitfield_and_tree_and_oplog} (where events are emitted on every path)",
+               "hypercore::replication::events::{Events::new,Events::send,Events::send_on_get,<Have as From<&BitfieldUpdate>>::from}"],
+    oracle="safety monitors over call/branch events of the MIR control-flow graph (lib/mirpath.py specs C13); expected event lists for the Events wrapper",
+    outside=["that the Have range passed by core.rs equals the bitfield update of the operation (data flow inside core.rs; only the conversion Have::from is checked on all values)",
+             "the real async-broadcast channel (locks, wakers, overflow at capacity 32): replaced by a single-threaded FIFO model with the same try_broadcast/try_recv rules",
+             "whole histories through the public API (the async Hypercore API does not fit in CBMC, DESIGN.md 10.8)"],
+    harnesses={
+        "c13_have_from_update": H("quick", "Have::from(&BitfieldUpdate) is field-exact", "start, length: u64 full range; drop", "none", timeout=600),
+        "c13_events_two_subscribers_in_order": H("quick", "two subscribers both receive DataUpgrade then Have with the announced range, then nothing", "start, length full range", "2 subscribers, 2 events", timeout=900, rules=[(r"drop_glue", 6)]),
+        "c13_send_on_get_one_event": H("quick", "send_on_get delivers exactly one Get with the index", "index full range", "1 subscriber", timeout=900, rules=[(r"drop_glue", 6)]),
+        "c13_no_subscriber_no_backlog": H("quick", "sending without a subscriber is a silent no-op; late subscribers see no backlog", "none", "none", timeout=900, rules=[(r"drop_glue", 6)]),
+    },
+)
+PROPS["C13"] = C13
 
 # --------------------------------------------------------------------------------------------- S-level
 # Rules for the S-harnesses (real core.rs + oplog + tree + bitfield against the storage model).
